@@ -241,3 +241,23 @@ pub fn c08_scope(walls: &[C08Wall]) -> f32 {
         .map(|w| w.a)
         .sum()
 }
+
+// ---- C11: two classifiers that disagree exactly on one boundary point
+pub enum C11Tilt {
+    TOP,
+    SIDE,
+}
+pub fn c11_tilt_a(tilt: f32) -> C11Tilt {
+    if tilt <= 60.0 {
+        C11Tilt::TOP
+    } else {
+        C11Tilt::SIDE
+    }
+}
+pub fn c11_tilt_b(tilt: f32) -> C11Tilt {
+    if tilt < 60.0 {
+        C11Tilt::TOP
+    } else {
+        C11Tilt::SIDE
+    }
+}
